@@ -281,6 +281,7 @@ type workerResult struct {
 	replay   map[string]any
 	dumps    []map[string]any
 	finished bool
+	probe    bool // determinism probe: contributes hashes only
 }
 
 func runWorker(worker, dir string, idx int, j job, procs int, race bool) *workerResult {
@@ -462,16 +463,42 @@ func check(id, tier string, keep bool, runsOverride, secsOverride int64) int {
 			DetFrom: 0, DetTo: detN, Reverse: pi == 1})
 		jprocs = append(jprocs, p)
 	}
-	results := make([]*workerResult, len(jobs))
+	var results []*workerResult
+	var resMu sync.Mutex
 	var wg sync.WaitGroup
 	sem := make(chan struct{}, ncpu)
+	var seq int64
 	for i := range jobs {
 		wg.Add(1)
 		go func(i int) {
 			defer wg.Done()
 			sem <- struct{}{}
 			defer func() { <-sem }()
-			results[i] = runWorker(worker, dir, i, jobs[i], jprocs[i], sp.Race)
+			j := jobs[i]
+			for {
+				resMu.Lock()
+				seq++
+				idx := int(seq)
+				resMu.Unlock()
+				r := runWorker(worker, dir, idx, j, jprocs[i], sp.Race)
+				r.probe = i >= nsearch
+				resMu.Lock()
+				results = append(results, r)
+				resMu.Unlock()
+				// a worker that stopped early to shed leaked goroutines/memory is continued in a fresh process
+				next := num(r.summary, "next_run")
+				if !r.finished || r.summary == nil || next <= j.From || next >= j.To || j.Mode != "search" {
+					break
+				}
+				j.From = next
+				if j.Deadline > 0 {
+					left := secs - int64(time.Since(t0).Seconds())
+					if left <= 0 {
+						break
+					}
+					j.Deadline = left
+				}
+			}
 		}(i)
 	}
 	wg.Wait()
@@ -512,7 +539,7 @@ func check(id, tier string, keep bool, runsOverride, secsOverride int64) int {
 				detHashes[k][fmt.Sprint(v)] = true
 			}
 		}
-		if i >= nsearch {
+		if r.probe {
 			continue // determinism probe: hashes only
 		}
 		for _, k := range []string{"runs", "nontrivial", "discarded", "inconclusive", "steps", "yields", "switches", "focus_preemptions", "sim_time_ns", "map_calls", "map_permuted", "self_check_mismatch"} {
